@@ -83,9 +83,7 @@ Proof. decide equality; [apply list_eq_dec, Bool.bool_dec|apply obs_eq_dec]. Def
 
 (** All observations of one client transaction from ban list [bl]: the checkout over every order
     of the candidates, every choice of one outcome per address among the listed ones, every listed
-    clock reading (the same reading for every address: the driver keeps ban expiry away from the
-    second boundaries a checkout may cross and compares new time stamps by interval); if the client saw its statement fail ([ek = Some k]) the handed-out server is
-    banned by [ExecFail] ([gone]: that client had closed or reset its socket meanwhile).  Each observation carries, per contacted address, whether it was
+    clock reading; [after]: what happened on the handed-out server afterwards ([ExecFail], [OobPrepare]).  Each observation carries, per contacted address, whether it was
     health-checked. *)
 Fixpoint is_prefix (p l : list addr) : bool :=
   match p, l with
@@ -97,8 +95,8 @@ Fixpoint is_prefix (p l : list addr) : bool :=
 (** [first]: addresses known to be popped first, in this order (least-outstanding-connections mode
     with strictly fewer busy connections than every other candidate); [[]] = nothing known. *)
 Definition tie_txn (c : cfg) (bl : banlist) (req : option role) (shard : option nat)
-                   (opts : list (addr * list outcome)) (nows : list Z) (ek : option exec_kind)
-                   (first : list addr) (gone : bool) : list tobs :=
+                   (opts : list (addr * list outcome)) (nows : list Z) (after : option (addr -> Z -> op))
+                   (first : list addr) : list tobs :=
   nodup tobs_eq_dec
     (flat_map (fun now =>
        flat_map (fun asg =>
@@ -108,8 +106,8 @@ Definition tie_txn (c : cfg) (bl : banlist) (req : option role) (shard : option 
                            | SInvalid => []
                            | _ => map snd (trace_loop c (fun _ => now) (fun _ => now) (outs_of asg) (rev order) bl)
                            end in
-                match g, ek with
-                | Ok a, Some k => (proj (g, ct, step c bl1 (ExecFail a k now gone)), hcs)
+                match g, after with
+                | Ok a, Some f => (proj (g, ct, step c bl1 (f a now)), hcs)
                 | _, _ => (proj (g, ct, bl1), hcs)
                 end)
              (filter (fun order => is_prefix first (rev order)) (perms (candidates c req (effective_sel c shard)))))
@@ -118,7 +116,7 @@ Definition tie_txn (c : cfg) (bl : banlist) (req : option role) (shard : option 
 
 Definition tie_get (c : cfg) (bl : banlist) (req : option role) (shard : option nat)
                    (opts : list (addr * list outcome)) (nows : list Z) : list obs :=
-  nodup obs_eq_dec (map fst (tie_txn c bl req shard opts nows None [] false)).
+  nodup obs_eq_dec (map fst (tie_txn c bl req shard opts nows None [])).
 
 Definition tie_step (c : cfg) (bl : banlist) (o : op) : list (nat * reason * Z) := proj_bl (step c bl o).
 
